@@ -7,6 +7,9 @@ import RawPanelVerif.Base.Bytes
 Mirrors, one definition per Go function / code block:
 
 * `chunkLines`, `encodeState`  — converterFunctions.go 881-905 (`InboundMessagesToRawPanelASCIIstrings`, HWCGfx block)
+* `encodeMsg`, `encodeMsgs`    — the same function on a whole call: the loops over `inboundMsgs` and over the `States` of
+                                 each message around that block (messages whose states carry images only); the line
+                                 prefix is chosen per image (`cmdString` is declared inside the HWCGfx block)
 * `matchGfx`                   — the regular expression `regex_gfx` = `ASCIIreader_gfx` (hand-written matcher; the pattern
                                  text it was written for is `gfxPattern`, compared with the extracted source on every run)
 * `Batch.step`, `Batch.run`    — converterFunctions.go 33-38, 340-402: the graphics branch of
@@ -106,6 +109,13 @@ def chunkLines (g : Img) (ids : Bytes) : List Bytes :=
 
 /-- the encoder emits one complete transfer per target id -/
 def encodeState (g : Img) (ids : List Nat) : List Bytes := ids.flatMap (fun id => chunkLines g (dec id))
+
+/-- the states of one `InboundMessage`, in the order of `States`: image and target ids (`HWCIDs`) of each.  The loop
+over the states runs the HWCGfx block once per state and target id; nothing is carried from one state to the next. -/
+def encodeMsg (states : List (Img × List Nat)) : List Bytes := states.flatMap (fun s => encodeState s.1 s.2)
+
+/-- one call of `InboundMessagesToRawPanelASCIIstrings` on messages that carry only images: message after message -/
+def encodeMsgs (msgs : List (List (Img × List Nat))) : List Bytes := msgs.flatMap encodeMsg
 
 /-! ## the pattern -/
 
